@@ -4,6 +4,7 @@ import GqlProofs.Validate.RuleFuel
 import GqlProofs.Validate.OpEvents
 import GqlProofs.Validate.Witness
 import GqlProofs.Validate.OverlapSafe
+import GqlProofs.Validate.OverlapWitness
 /-
   C02 — validation never crashes and terminates (the part that concerns `validator.Validate`
   and the rules; OverlappingFieldsCanBeMerged — the repaired algorithm — is at the end).
@@ -180,6 +181,13 @@ example (s : Schema) (d : QueryDoc) (hd : ∀ op ∈ d.ops, op.op ∈ parserOpKi
       · exact Or.inr (Or.inl h)
       · exact Or.inl hr
 
+/-- kernel-checked: on `{ u { ...F } } fragment F on Node { u { id ...F } ...F }` — a fragment that
+    reaches itself directly and through a field, the shape of DESIGN §7 R2d — the model of the repaired
+    rule terminates with an empty error list (the real rule agrees: X-overlap) -/
+theorem C02_overlap_cyclic_witness :
+    validate [overlappingFieldsCanBeMerged] OverlapWitness.schema OverlapWitness.docCycle = .ok [] := by
+  decide +kernel
+
 #print axioms C02_walk_terminates
 #print axioms C02_validate_fuel_suffices
 #print axioms C02_walk_events_bound
@@ -193,3 +201,4 @@ example (s : Schema) (d : QueryDoc) (hd : ∀ op ∈ d.ops, op.op ∈ parserOpKi
 #print axioms C02_overlap_depth_bounded
 #print axioms C02_overlap_no_panic
 #print axioms C02_validate_no_panic_with_overlap_partial
+#print axioms C02_overlap_cyclic_witness
